@@ -25,6 +25,36 @@ CLAIMED = {
         "technique": "Coq proof (GF(2) linearity + injectivity of the register step, reflection for table and orbit) + regenerated table + differential correspondence",
         "design": "DESIGN.md section 7 C05",
     },
+    "C01": {
+        "text": "Coq theorems about an exact (rational) model of the trajectory decoder and player: decode(encode T) gives back header, durations, chained start times and control points for every well-formed abstract trajectory (all 256 header combinations, any scale 1..127); the power-basis polynomial built by the transcription of sb_poly_make_bezier evaluated by Horner equals the de Casteljau Bezier curve for 1..8 control points; position_at = traj_pos (segment containing t, elapsed fraction, clamps at 0 and at the end) for every t incl. +-inf; segments join; every duration query = sum of durations; a 16-bit block cannot wrap uint32. Tied to the code by differential runs: header fields, segment counts, the five duration queries exact; positions within the float32 bound tol_at (Coq-defined, assumed) of the exact model at/around every boundary.",
+        "note": "Trusted: Coq kernel; hand-written model (exact arithmetic where the code uses binary32: rounding bound tol_at is a named numeric assumption with safety factor 4, not a theorem; the binary32 segment selection can differ from the exact one only within rounding of a boundary, covered by the neighbour term of the tolerance); extraction; harness. No axioms (Z and Q only).",
+        "technique": "Coq proof (round trip + Bezier identity by field + induction over segments) + differential correspondence with a Coq-defined float tolerance",
+        "design": "DESIGN.md section 7 C01",
+    },
+    "C07": {
+        "text": "Coq theorems over the reals (Coquelicot is_derive): for every coefficient list the model's derivative polynomial is the derivative of the evaluated function; with the 1/duration scaling of sb_i_get_dpoly/ddpoly, velocity is the time derivative of the position function of the segment and acceleration that of velocity, for every degree and every duration >= 1 ms; the executable rational model computes exactly those functions (Q2R homomorphism); zero beyond the end, clamped before zero. Tied to the code by differential runs of velocity/acceleration strictly inside segments (fresh and history mode, exercising the lazy derivative cache) within the Coq-defined float bound.",
+        "note": "Trusted: Coq kernel; standard-library real-number axioms (ClassicalDedekindReals.sig_forall_dec, sig_not_dec, FunctionalExtensionality.functional_extensionality_dep, Classical_Prop.classic) as reported by Print Assumptions; hand-written model; tol_at assumed; extraction; harness.",
+        "technique": "Coq proof over R (Coquelicot derivatives, chain rule) + Q/R homomorphism + differential correspondence",
+        "design": "DESIGN.md section 7 C07",
+    },
+    "C08": {
+        "text": "Coq theorem on the cursor model of the trajectory player (and the same for the yaw player in C10): from any cursor reachable by any history of queries, a query lands where a fresh player lands or, when t is exactly a segment boundary, on the adjoining segment; the cursor left behind is reachable again; errors do not depend on history; fuel always suffices. Tied to the code by C-against-C bit-for-bit comparison of a player with a history against a fresh player for every query (all orderings of 5 probes, long mixed sequences, yaw player included), plus positions against the exact model.",
+        "note": "Trusted: Coq kernel; hand-written cursor model (exact comparisons; the binary32 comparisons of the code agree except within rounding of a boundary, which the property allows); harness flags computed from public struct fields. No axioms.",
+        "technique": "Coq proof (invariant over reachable cursors, induction over histories) + C-vs-C bit-for-bit differential runs",
+        "design": "DESIGN.md section 7 C08",
+    },
+    "C10": {
+        "text": "Coq theorems about an exact model of yaw_control.c: header fields round-trip for any flag byte/offset/setpoints; yaw = offset + completed changes + elapsed fraction (tenths of a degree / 10) and rate = change/duration at every time, offset before zero, final yaw and zero rate after the end; duration = sum; accumulated yaw fits int32 for 16-bit blocks; history independence of the yaw player. Tied to the code by differential runs (fields and durations exact, yaw/rate within a Coq-defined float bound, neighbours included).",
+        "note": "Trusted: Coq kernel; hand-written model (exact arithmetic; yaw_tol is an assumed float bound); extraction; harness. No axioms.",
+        "technique": "Coq proof (round trip, induction over setpoints) + differential correspondence",
+        "design": "DESIGN.md section 7 C10",
+    },
+    "C11": {
+        "text": "Coq theorems about a byte-level model of sb_rth_plan_evaluate_at (varuints, flags, action-dependent fields, uint32 overflow test, 2^24 duration limit, (float)uint32 comparison): evaluate(encode p) t = eval_spec p t for every well-formed abstract plan and every time (negative, infinite, NaN), never 'same as previous', no wrapped values, conversion monotone and exact up to 2^24. Tied to the code by exact differential runs on generated plans (all action/flag combinations, multi-byte varuints, overflow cases) and a malformed stream.",
+        "note": "Trusted: Coq kernel; hand-written model following the repaired (bounds-checked) code; extraction; harness. No axioms.",
+        "technique": "Coq proof (encoder/decoder round trip, scan invariant) + exact differential correspondence",
+        "design": "DESIGN.md section 7 C11",
+    },
 }
 NOT_YET = "check not built yet in this session (planned: Coq model + theorems + correspondence, see DESIGN.md section 7)"
 
